@@ -49,6 +49,8 @@ type Config struct {
 	// Replay, if non-nil, answers the choice stream. Lenient replay answers 0 when the tape is exhausted.
 	Replay  []Choice `json:"-"`
 	Lenient bool     `json:"-"`
+	// Cycle makes the tape wrap around when exhausted (with Lenient: choices are reduced modulo n).
+	Cycle bool `json:"-"`
 	// KeepLog keeps the full event log (otherwise only a hash and a tail).
 	KeepLog bool `json:"-"`
 	// ZeroReadSpin is the number of consecutive zero-length reads on a connection that counts as a livelock.
@@ -221,6 +223,9 @@ func (s *Sim) choose(n int, weights func(i int) int) int {
 	}
 	var c int
 	if s.cfg.Replay != nil {
+		if s.cfg.Cycle && len(s.cfg.Replay) > 0 && s.rpos >= len(s.cfg.Replay) {
+			s.rpos = 0
+		}
 		if s.rpos >= len(s.cfg.Replay) {
 			if !s.cfg.Lenient && s.diverged == "" {
 				s.diverged = fmt.Sprintf("tape exhausted at choice %d (n=%d)", s.rpos, n)
@@ -233,7 +238,11 @@ func (s *Sim) choose(n int, weights func(i int) int) int {
 			}
 			c = e.C
 			if c >= n || c < 0 {
-				c = 0
+				if s.cfg.Cycle {
+					c = ((c % n) + n) % n
+				} else {
+					c = 0
+				}
 			}
 		}
 		s.rpos++
@@ -362,7 +371,7 @@ func (s *Sim) Run(root func()) *Outcome {
 			out.Crashes = append(out.Crashes, Crash{Task: t.name, Value: t.crashVal, Stack: t.crashStack})
 		}
 	}
-	if s.cfg.Replay != nil && !s.cfg.Lenient && s.diverged == "" && s.rpos < len(s.cfg.Replay) && !out.Budget {
+	if s.cfg.Replay != nil && !s.cfg.Lenient && !s.cfg.Cycle && s.diverged == "" && s.rpos < len(s.cfg.Replay) && !out.Budget {
 		out.Diverged = fmt.Sprintf("run used %d of %d tape entries", s.rpos, len(s.cfg.Replay))
 	}
 	out.Recs = s.recs
